@@ -54,11 +54,17 @@ def reals(tier):
         fl = [0.0, -0.0, 0.5, 0.1, 1.0, 2.0 ** 53, 2.0 ** 63, 2.0 ** 64, 5e-324, math.inf, -math.inf]
     for x in fl:
         add(cF(x), lit_float(x))
+    # real numbers held at the complex level (zero imaginary part): still compared by exact value with the other levels
+    for x, src in ((2.0 ** 53, "(2.0^53 + 0i)"), (0.5, "(0.5 + 0i)"), (1.0, "(1 + 0i)"), (1 / 3, "(1.0/3 + 0i)"), (0.0, "(0.0 + 0i)"), (2.0 ** 64, "(2.0^64 + 0i)")):
+        add(["c", cF(x)[1], cF(0.0)[1]], src)
     return P
 
 
 def exact(c):
     """canon real -> Fraction or +-inf (float)"""
+    if c[0] == "c":
+        v = hex2f(c[1])
+        return v if math.isinf(v) else Fraction(v)
     v = num_value(c)
     if isinstance(v, float):
         if math.isinf(v):
@@ -192,6 +198,8 @@ def nontrivial(case, rs):
 
 
 def rclass(c):
+    if c[0] == "c":
+        return "complex:real"
     v = num_value(c)
     lvl = {"i": "int", "q": "rational", "f": "float"}[c[0]]
     if isinstance(v, float) and math.isinf(v):
